@@ -1307,7 +1307,20 @@ where
                 let next_page = self.get_page_mut(next_id)?;
 
                 // Obtain the first child
-                if let Some(first_child_id) = next_page.child(0) {
+                if let Some(mut first_child_id) = next_page.child(0) {
+                    // The divider has to be the smallest key below the next sibling, which is the
+                    // first cell of its left most LEAF. The first cell of an interior child only
+                    // bounds that child's second subtree.
+                    loop {
+                        let child_page = self.get_page_mut(first_child_id)?;
+                        if child_page.is_leaf() {
+                            break;
+                        }
+                        match child_page.child(0) {
+                            Some(id) => first_child_id = id,
+                            None => break,
+                        }
+                    }
                     let child_page = self.get_page_mut(first_child_id)?;
                     let mut cell = child_page.owned_cell(0);
 
